@@ -17,6 +17,10 @@ use crate::{
     record::{Flags, MateFlags},
 };
 
+// As in BAM (_Sequence Alignment/Map Format Specification_ § 4.2.3 "SEQ and QUAL encoding"), omitted
+// quality scores are stored as 0xff for each base.
+const MISSING_QUALITY_SCORE: u8 = 0xff;
+
 impl Record {
     pub fn try_from_alignment_record(
         reference_sequence_repository: &fasta::Repository,
@@ -34,7 +38,9 @@ impl Record {
         };
 
         let quality_scores = if record.quality_scores().is_empty() {
-            QualityScores::default()
+            // Quality scores are always stored as an array (see `cram_flags`), so a record without
+            // quality scores must still contribute one score per base.
+            QualityScores::from(vec![MISSING_QUALITY_SCORE; record.sequence().len()])
         } else {
             if bam_flags.is_unmapped() {
                 cram_flags.insert(Flags::QUALITY_SCORES_ARE_STORED_AS_ARRAY);
